@@ -577,7 +577,7 @@ func (e *E) Walk(path string, f func(path string, n *E)) {
 
 // PrefixSchemes is the number of ways Reprefix can spell the prefixes of a world (scheme 0 is the
 // plain one: every prefix equals the name of the module it stands for).
-const PrefixSchemes = 4
+const PrefixSchemes = 6
 
 // Reprefix returns a copy of the world in which the same modules know themselves and one another
 // under other prefixes; every prefixed reference in the bodies is rewritten accordingly, so the
@@ -600,12 +600,28 @@ func Reprefix(w *World, scheme int) *World {
 	for i, n := range tops {
 		next[n] = tops[(i+1)%len(tops)]
 	}
+	rank := map[string]int{}
+	for i, n := range tops {
+		rank[n] = i
+	}
+	// schemes 4 and 5: the prefixes of the modules form a chain in which each is a proper prefix
+	// (4: k, k-y, k-y-y) or a proper suffix (5: k, y-k, y-y-k) of the next; a module is known by
+	// its chain prefix everywhere
+	chain := func(m string) string {
+		// (letters no family uses for an alias prefix of its own)
+		if scheme == 4 {
+			return "k" + strings.Repeat("-y", rank[m])
+		}
+		return strings.Repeat("y-", rank[m]) + "k"
+	}
 	own := func(m string) string { // the prefix module m declares for itself
 		switch scheme {
 		case 1:
 			return "p." + m
 		case 2:
 			return next[m]
+		case 4, 5:
+			return chain(m)
 		}
 		return "q"
 	}
@@ -615,6 +631,8 @@ func Reprefix(w *World, scheme int) *World {
 			return "i." + m + ".x"
 		case 2:
 			return next[m]
+		case 4, 5:
+			return chain(m)
 		}
 		return "i" + m
 	}
